@@ -1,4 +1,6 @@
 import TF.Proofs.PolyVal
+import TF.Proofs.PolyApi
+import TF.Proofs.PolyValDiv
 /-!
 # C17 — polynomials have value semantics: stored leading zeros never change results
 
@@ -231,5 +233,201 @@ theorem batch_products_respect_denote (T : Transform K) (threshold : Int) (numTh
     parBatchMultiplyWith_rel root hm numThreads (forall₂_map_some h)⟩
 example : List.Forall₂ (fun a b => denote a = denote b) [[1, 2, 0], ([] : List ℚ)] [[1, 2], [0]] := by
   refine .cons (by simp) (.cons (by simp) .nil)
+
+/-! ### G07 — the rest of the public API (docs/POLY_API_COVERAGE.md)
+
+Constructors, scalar operators, evaluation across fields, `truncate` with machine arithmetic, and the operations whose
+models live in `TF/Model/PolyDiv.lean` / `TF/Model/PolyInterp.lean` (division, reduction, gcd, bulk and coset
+evaluation).  `Rel2`/`Rel3`/`RelO`: both sides panic, or both return storages of the same polynomial(s). -/
+
+open TF.Proofs.PolyV TF.Model.PolyD in
+/-- constructors: `x_to_the(n) = Xⁿ`, `from_constant(c) = c`, `Zero::zero() = 0`, `One::one() = 1`,
+    `From<XFieldElement>` is the coordinate polynomial, and `From<Vec<_>>`/`From<[_; N]>`/`From<&[_]>` applied to two
+    lists that differ in trailing zeros give `==` polynomials -/
+theorem constructors_spec (n : Nat) (c : K) (t : K × K × K) {a a' : List K} (h : denote a = denote a') :
+    denote (xToThe FK n) = X ^ n ∧ denote (fromConstant c) = C c ∧ denote (zero : List K) = 0 ∧
+    denote (one FK) = 1 ∧ denote (fromXfe t) = C t.1 + C t.2.1 * X + C t.2.2 * X ^ 2 ∧
+    Model.Poly.eq FK (fromList a) (fromList a') = true :=
+  ⟨denote_xToThe root n, denote_fromConstant c, denote_zero, denote_one root, denote_fromXfe t,
+    (eq_iff_denote root _ _).2 h⟩
+example : denote ([1, 2, 0] : List ℚ) = denote [1, 2] := by simp
+
+/-- the scalar operators `p * s`, `s * p` (`BFieldElement`/`XFieldElement` on the left) and `scalar_mul`, scalar and
+    coefficients possibly in different fields (`φ₁`, `φ₂` the embeddings into the result field): the result is
+    `φ₁(p) · φ₂(s)`, on every storage -/
+theorem scalar_operators_respect_denote {K₁ K₂ : Type} [Field K₁] [Field K₂] (φ₁ : K₁ →+* K) (φ₂ : K₂ →+* K)
+    {a a' : List K₁} (h : denote a = denote a') (s : K₂) :
+    denote (scalarMulG (fun x y => φ₁ x * φ₂ y) a s) = (denote a).map φ₁ * C (φ₂ s) ∧
+    denote (scalarMulG (fun x y => φ₁ x * φ₂ y) a s) = denote (scalarMulG (fun x y => φ₁ x * φ₂ y) a' s) := by
+  rw [denote_scalarMulG, denote_scalarMulG, h]; exact ⟨rfl, rfl⟩
+example : denote ([3, 0] : List ℚ) = denote [3] := by simp
+
+/-- `evaluate::<Ind, Eval>` of a polynomial over `K` at a point of an extension field `L` is `eval₂` along the
+    embedding — it depends on the denoted polynomial only; at a point of `K` itself it is `eval` -/
+theorem evaluate_mixed_respects_denote {L : Type} [Field L] [Algebra K L] (rootL : Nat → Option L)
+    {a a' : List K} (h : denote a = denote a') (x : L) (y : K) :
+    evaluateLift (FieldOps.ofField L rootL) (algebraMap K L) a x = (denote a).eval₂ (algebraMap K L) x ∧
+    evaluateLift (FieldOps.ofField L rootL) (algebraMap K L) a x
+      = evaluateLift (FieldOps.ofField L rootL) (algebraMap K L) a' x ∧
+    evaluateLift FK id a y = evaluateLift FK id a' y := by
+  refine ⟨evaluateLift_spec rootL a x, ?_, ?_⟩
+  · rw [evaluateLift_spec, evaluateLift_spec, h]
+  · rw [evaluateLift_id, evaluateLift_id, h]
+example : evaluateLift (FieldOps.ofField ℚ) (algebraMap ℚ ℚ) [1, 2, 0] 3
+    = evaluateLift (FieldOps.ofField ℚ) (algebraMap ℚ ℚ) [1, 2] 3 :=
+  (evaluate_mixed_respects_denote (fun _ => none) (fun _ => none) (by simp) 3 0).2.1
+
+/-- `truncate(k)` as compiled (release profile, `k + 1` in `usize`): for every `k < usize::MAX` it is the `truncate`
+    of `truncate_spec`, and on every `k` it reads `coefficients()` only — the same result on every storage -/
+theorem truncate_usize_respects_denote {a a' : List K} (h : denote a = denote a') (k : Nat) :
+    truncateUsize FK a k = truncateUsize FK a' k ∧
+    (k + 1 < 2 ^ 64 → truncateUsize FK a k = truncate FK a k) :=
+  ⟨truncateUsize_congr root h k, truncateUsize_eq root a k⟩
+example : truncateUsize (FieldOps.ofField ℚ) [1, 2, 0] 0 = truncateUsize (FieldOps.ofField ℚ) [1, 2] 0 :=
+  (truncate_usize_respects_denote _ (by simp) 0).1
+
+/-- **finding F13** (negation witness): at `k = usize::MAX` the compiled `truncate` returns the zero polynomial for
+    every input, whereas the documented result ("degree = min(k, degree)", `truncate_spec`) is the polynomial itself;
+    `[1,2,3].truncate(usize::MAX) = 0 ≠ 1 + 2X + 3X²` -/
+theorem truncate_usize_max_violates :
+    truncateUsize (FieldOps.ofField ℚ) [1, 2, 3] (2 ^ 64 - 1) = [] ∧
+    truncate (FieldOps.ofField ℚ) [1, 2, 3] (2 ^ 64 - 1) = [1, 2, 3] ∧
+    denote (truncateUsize (FieldOps.ofField ℚ) [1, 2, 3] (2 ^ 64 - 1)) ≠ denote ([1, 2, 3] : List ℚ) := by
+  have h0 := truncateUsize_max (fun _ => none) ([1, 2, 3] : List ℚ)
+  refine ⟨h0, ?_, ?_⟩
+  · have hn : normalize (FieldOps.ofField ℚ) [1, 2, 3] = [1, 2, 3] :=
+      normalize_of_normal (fun _ => none) (by simp [Normal])
+    unfold truncate
+    rw [hn]
+    show List.drop (([1, 2, 3] : List ℚ).length - (2 ^ 64 - 1 + 1)) [1, 2, 3] = [1, 2, 3]
+    have : ([1, 2, 3] : List ℚ).length - (2 ^ 64 - 1 + 1) = 0 := by norm_num
+    rw [this]; rfl
+  · rw [h0]
+    intro h
+    have := congrArg (fun p => p.coeff 0) h
+    simp at this
+example : (2 : Nat) ^ 64 - 1 + 1 = 2 ^ 64 := by norm_num
+
+open TF.Proofs.PolyV TF.Model.PolyD in
+/-- `divide`, `naive_divide`, `/`, `%` in both argument positions: both panic (zero divisor), or both return
+    storages of the same quotient and remainder -/
+theorem division_respects_denote {a a' d d' : List K} (ha : denote a = denote a') (hd : denote d = denote d') :
+    Rel2 (naiveDivide FK a d) (naiveDivide FK a' d') ∧ Rel2 (divide FK a d) (divide FK a' d') ∧
+    RelO (Model.PolyD.div FK a d) (Model.PolyD.div FK a' d') ∧
+    RelO (Model.PolyD.rem FK a d) (Model.PolyD.rem FK a' d') :=
+  ⟨naiveDivide_congr root ha hd, naiveDivide_congr root ha hd, div_congr root ha hd, rem_congr root ha hd⟩
+example : denote ([0, 0] : List ℚ) = denote [] := by simp
+
+open TF.Proofs.PolyV TF.Model.PolyD in
+/-- `xgcd` in both argument positions: the gcd **and both Bézout coefficients** depend on the denoted polynomials
+    only (the Euclid loop is run on the two storages side by side; no certificate determines the coefficients) -/
+theorem xgcd_respects_denote {x x' y y' : List K} (hx : denote x = denote x') (hy : denote y = denote y') :
+    Rel3 (xgcd FK x y) (xgcd FK x' y') := xgcd_congr root hx hy
+example : denote ([1, 0, 1, 0] : List ℚ) = denote [1, 0, 1] := by simp
+
+open TF.Proofs.PolyV TF.Model.PolyD TF.Proofs.PolyD in
+/-- `reduce` (all four arms) and `fast_reduce` (all three stages), every threshold value, both argument positions:
+    both panic (zero modulus) or both return storages of the same remainder.  `NttDft N ω` is property C06. -/
+theorem reduce_respects_denote (N : NttOps K) (ω : Nat → K) (hN : NttDft N ω) (ms cutoff stage2 : Nat)
+    {a a' m m' : List K} (ha : denote a = denote a') (hm : denote m = denote m') :
+    RelO (reduce FK N ms cutoff stage2 a m) (reduce FK N ms cutoff stage2 a' m') ∧
+    RelO (fastReduce FK N cutoff stage2 a m) (fastReduce FK N cutoff stage2 a' m') :=
+  ⟨reduce_congr root N (nttConv_of_nttDft hN) ms cutoff stage2 ha hm,
+    fastReduce_congr root N (nttConv_of_nttDft hN) cutoff stage2 ha hm⟩
+example : denote ([3, 1, 0] : List ℚ) = denote [3, 1] := by simp
+
+open TF.Model.PolyD TF.Proofs.PolyD in
+/-- `structured_multiple_of_degree(n)` for a polynomial of degree ≥ 1: the same panic behaviour and the same multiple
+    on every storage (for constants the code returns `c⁻¹·Xⁿ`, tied by the correspondence run only) -/
+theorem structured_multiple_respects_denote {p p' : List K} (h : denote p = denote p') (n : Nat)
+    (hd : 1 ≤ (denote p).natDegree) :
+    RelO (structuredMultipleOfDegree FK p n) (structuredMultipleOfDegree FK p' n) := by
+  have hp : denote p ≠ 0 := by intro h0; rw [h0] at hd; simp at hd
+  by_cases hn : (denote p).natDegree ≤ n
+  · obtain ⟨s, h1, _, h2, h3, h4⟩ := structuredMultipleOfDegree_spec root p n hp hn
+    obtain ⟨s', h1', _, h2', h3', h4'⟩ := structuredMultipleOfDegree_spec root p' n (h ▸ hp) (h ▸ hn)
+    rw [h1, h1']
+    show denote s = denote s'
+    have key : ∀ (t : List K), denote p ∣ denote t → (denote t - X ^ n).degree < (denote p).degree →
+        denote t = X ^ n - X ^ n % denote p := by
+      intro t ⟨q, hq⟩ hdeg
+      have hcert : (X ^ n : K[X]) = q * denote p + (X ^ n - denote t) := by rw [hq]; ring
+      have hdeg' : (X ^ n - denote t : K[X]).degree < (denote p).degree := by
+        rw [← neg_sub, degree_neg]; exact hdeg
+      rw [← (div_mod_of_certificate hcert hdeg').2]; ring
+    rw [key s h2 (h4 hd).2, key s' (h ▸ h2') (h ▸ (h4' (h ▸ hd)).2)]
+  · rw [structuredMultipleOfDegree_none root p n (Or.inr (by omega)),
+      structuredMultipleOfDegree_none root p' n (Or.inr (by rw [← h]; omega))]
+    trivial
+example : (1 : Nat) ≤ (X ^ 2 + 1 : ℚ[X]).natDegree := by
+  rw [show (X ^ 2 + 1 : ℚ[X]) = X ^ 2 + C 1 by simp, natDegree_X_pow_add_C]; norm_num
+
+open TF.Proofs.PolyV TF.Model.PolyD TF.Proofs.PolyD in
+/-- `clean_divide` inside its contract (non-zero divisor dividing the dividend), every cut-off, both positions:
+    both return storages of the same quotient -/
+theorem clean_divide_respects_denote {L : Type} [Field L] [Algebra K L] (rootL : Nat → Option L) (E : ExtOps K L)
+    (NX : NttOps L) (ω : Nat → L) (hN : NttDft NX ω)
+    (hlift : ∀ k, E.lift k = algebraMap K L k) (hunlift : ∀ k, E.unlift (algebraMap K L k) = some k)
+    (hoff : E.offset ≠ 0) (cutoff : Nat) {a a' d d' : List K} (ha : denote a = denote a') (hd : denote d = denote d')
+    (hd0 : denote d ≠ 0) (hdvd : denote d ∣ denote a) :
+    RelO (cleanDivide FK (FieldOps.ofField L rootL) E NX cutoff a d)
+      (cleanDivide FK (FieldOps.ofField L rootL) E NX cutoff a' d') := by
+  obtain ⟨q, h1, h2⟩ := cleanDivide_spec root rootL E hN hlift hunlift hoff cutoff a d hd0 hdvd
+  obtain ⟨q', h1', h2'⟩ := cleanDivide_spec root rootL E hN hlift hunlift hoff cutoff a' d' (hd ▸ hd0)
+    (ha ▸ hd ▸ hdvd)
+  rw [h1, h1']
+  show denote q = denote q'
+  rw [← ha, ← hd, ← h2] at h2'
+  exact (mul_right_cancel₀ hd0 h2').symm
+example : denote ([1, 1] : List ℚ) ∣ denote ([0, 1, 1] : List ℚ) := ⟨X, by simp; ring⟩
+
+open TF.Model.PolyI in
+/-- bulk evaluation — `batch_evaluate` (every ratio, leaf size ≥ 1, cut-off ≥ 2), `par_batch_evaluate` (every thread
+    count), `iterative_batch_evaluate`, `divide_and_conquer_batch_evaluate` over any correct tree — returns
+    literally the same values on every storage of the polynomial -/
+theorem batch_evaluate_respects_denote {E : Ext K} (hE : E.Lawful) (R RT T threads : Nat) (hRT : 0 < RT) (hT : 2 ≤ T)
+    {p p' : List K} (h : denote p = denote p') (domain : List K) (t : ZTree K) (ht : t.Good) :
+    batchEvaluateWith FK E R RT T p domain = batchEvaluateWith FK E R RT T p' domain ∧
+    iterativeBatchEvaluate FK p domain = iterativeBatchEvaluate FK p' domain ∧
+    dcEval FK E p t = dcEval FK E p' t ∧
+    (∀ out out', parBatchEvaluateWith FK E R RT T threads p domain = some out →
+      parBatchEvaluateWith FK E R RT T threads p' domain = some out' → out = out') := by
+  refine ⟨?_, ?_, ?_, ?_⟩
+  · rw [batchEvaluateWith_total root hE R RT T hRT hT, batchEvaluateWith_total root hE R RT T hRT hT, h]
+  · unfold iterativeBatchEvaluate
+    exact List.map_congr_left (fun x _ => by rw [eval_denote, eval_denote, h])
+  · rw [dcEval_spec root hE p t ht, dcEval_spec root hE p' t ht, h]
+  · intro out out' h1 h2
+    rw [parBatchEvaluateWith_sound root hE R RT T threads p domain out h1,
+      parBatchEvaluateWith_sound root hE R RT T threads p' domain out' h2, h]
+example : denote ([0, 1, 0, 0] : List ℚ) = denote [0, 1] := by simp
+
+
+open TF.Model.PolyI in
+/-- (helper) the panic condition of `fast_coset_evaluate` -/
+theorem fce_none_iff {E : Ext K} (p : List K) (offset : K) (order : Nat) :
+    fastCosetEvaluate FK E p offset order = none ↔
+      ¬ (TF.Model.PolyI.degSucc FK p ≤ order ∧ (order = 0 ∨ TF.Model.PolyI.isPow2 order = true)) := by
+  unfold fastCosetEvaluate nttChecked
+  simp only [TF.Model.PolyI.length_resize]
+  by_cases h1 : TF.Model.PolyI.degSucc FK p ≤ order <;> by_cases h2 : order = 0 <;>
+    by_cases h3 : TF.Model.PolyI.isPow2 order = true <;>
+    simp [h1, h2, h3]
+
+open TF.Model.PolyI in
+/-- `fast_coset_evaluate`: the same panic condition (order not above the degree, or not a power of two) and the same
+    values on every storage -/
+theorem fast_coset_evaluate_respects_denote {E : Ext K} (hN : Ext.LawfulNtt root E) {p p' : List K}
+    (h : denote p = denote p') (offset : K) (order : Nat) (ω : K) (hω : root order = some ω) :
+    (fastCosetEvaluate FK E p offset order = none ↔ fastCosetEvaluate FK E p' offset order = none) ∧
+    (∀ out out', fastCosetEvaluate FK E p offset order = some out →
+      fastCosetEvaluate FK E p' offset order = some out' → out = out') := by
+  constructor
+  · rw [TF.C17.fce_none_iff root p, TF.C17.fce_none_iff root p']
+    unfold TF.Model.PolyI.degSucc; rw [normalize_congr root h]
+  · intro out out' h1 h2
+    rw [fastCosetEvaluate_sound root hN p offset order ω hω out h1,
+      fastCosetEvaluate_sound root hN p' offset order ω hω out' h2, h]
+example : denote ([5, 0, 0] : List ℚ) = denote [5] := by simp
 
 end TF.C17
